@@ -2,18 +2,42 @@ package main
 
 import (
 	"fmt"
+	"strings"
 
+	apb "github.com/google/fhir/go/proto/google/fhir/proto/annotations_go_proto"
 	"github.com/verily-src/fhirpath-go/fhirpath/verifh/lib"
-	"github.com/verily-src/fhirpath-go/internal/fhir"
 	"google.golang.org/protobuf/proto"
+	"google.golang.org/protobuf/reflect/protoreflect"
 )
 
 func main() {
-	res := proto.Clone(lib.GenResource("Account", 0, 2)).(fhir.Resource)
-	for _, src := range []string{"'http://example.org/a'", "Account.extension.url.toString()", "Account.extension.url = 'http://example.org/a'", "Account.extension[0].url = 'http://example.org/a'", "Account.extension[0].url.value", "Account.extension.count()"} {
-		r := lib.Run(src, []fhir.Resource{res}, nil)
-		fmt.Println(src, "=>", r.String())
+	seen := map[protoreflect.FullName]bool{}
+	var walk func(md protoreflect.MessageDescriptor)
+	n, bad := 0, 0
+	walk = func(md protoreflect.MessageDescriptor) {
+		if seen[md.FullName()] {
+			return
+		}
+		seen[md.FullName()] = true
+		if f := md.Fields().ByName("value"); f != nil && (f.Kind() == protoreflect.EnumKind) {
+			n++
+			base := proto.GetExtension(md.Options(), apb.E_FhirProfileBase)
+			if !strings.HasSuffix(string(md.Name()), "Code") {
+				bad++
+				fmt.Println("enum-valued, not *Code:", md.FullName(), base)
+			}
+		}
+		if f := md.Fields().ByName("value"); f != nil && f.Kind() == protoreflect.StringKind && strings.HasSuffix(string(md.Name()), "CodeType") {
+			fmt.Println("string CodeType:", md.FullName())
+		}
+		for i := 0; i < md.Fields().Len(); i++ {
+			if m := md.Fields().Get(i).Message(); m != nil {
+				walk(m)
+			}
+		}
 	}
-	_, b, _ := lib.ResourceJSON(res)
-	fmt.Println(string(b)[:600])
+	for _, tn := range lib.ResourceTypeNames() {
+		walk(lib.NewResource(tn).ProtoReflect().Descriptor())
+	}
+	fmt.Println(n, bad)
 }
